@@ -164,3 +164,165 @@ Proof.
   - splits; auto; try lia.
   - pose proof (wrap_range (c_remain s - r)). splits; auto; try lia.
 Qed.
+
+(* progress of a successful get_new_chunk: error, or finished, or >= 2 input bytes consumed *)
+Definition gprog (s s' : crs) (r : Z) : Prop := r < 0 \/ c_finish s' = true \/ M s' <= M s - 2.
+
+Lemma gnc_loop_any : forall fuel s,
+  WFa s -> c_cursor s = 0 -> total_len (c_ps s) < Z.of_nat fuel ->
+  exists r s', gnc_loop fuel s = Some (r, s') /\ WFa s' /\ c_cap s' = c_cap s /\ M s' <= M s /\ gprog s s' r.
+Proof.
+  induction fuel as [|f IH]; intros s HW Hc0 Hfuel.
+  { pose proof (total_len_nonneg (c_ps s)). lia. }
+  pose proof HW as (Hcur & Hls & Hcap & Hrem). cbn [gnc_loop].
+  destruct (c_finish s) eqn:Hfin.
+  { exists 0, s. splits; auto; try lia. right. left. exact Hfin. }
+  assert (Hcnt : 0 <= LINE_BUFFER_SIZE - lsize s) by lia.
+  rewrite wrap_small by (unfold W64, LINE_BUFFER_SIZE, lsize in *; pose proof (zlen_nonneg (c_line s)); lia).
+  pose proof (sk_recv_any (c_ps s) (c_err s) (LINE_BUFFER_SIZE - lsize s) Hcnt) as Hr.
+  destruct (sk_recv (c_ps s) (c_err s) (LINE_BUFFER_SIZE - lsize s)) as [[r bs] ps'].
+  destruct Hr as (Hrb & Hrpos & Htot).
+  destruct (Z.ltb_spec r 0).
+  { do 2 eexists. split; [reflexivity|]. unfold WFa, M, gprog, lsize in *. cbn. splits; auto; lia. }
+  destruct (Z.eqb_spec r 0).
+  { do 2 eexists. split; [reflexivity|]. unfold WFa, M, gprog, lsize in *. cbn. splits; auto; lia. }
+  destruct (Hrpos ltac:(lia)) as (Hbl & Htot').
+  destruct (Z.ltb_spec (c_cap s) (lsize s + r)); [lia|].
+  set (s1 := set_line (mkCrs (c_line s) (c_cursor s) (c_remain s) false ps' (c_err s) (c_closed s) (c_cap s))
+                      (c_line s ++ bs) (c_cursor s)).
+  assert (Hls1 : lsize s1 = lsize s + r) by (unfold lsize, s1; cbn; rewrite zlen_app; lia).
+  assert (HW1 : WFa s1) by (unfold WFa; rewrite Hls1; cbn; splits; auto; lia).
+  assert (HM1 : M s1 = M s) by (unfold M; rewrite Hls1; cbn; lia).
+  assert (Hfuel1 : total_len (c_ps s1) < Z.of_nat f) by (cbn; lia).
+  assert (Hcap1 : c_cap s1 = c_cap s) by reflexivity.
+  destruct (Z.leb_spec (lsize s1) 2).
+  - destruct (IH s1 HW1 Hc0 Hfuel1) as (r' & s' & E' & HW' & Hc' & HM' & Hg').
+    rewrite E'. exists r', s'. unfold gprog in *. splits; auto; try lia; try congruence.
+  - destruct (pnc_any s1 HW1) as (b & s2 & E & HW2 & Hl2 & Hc2 & Ht2 & Hbf & Hbt).
+    change (c_cursor s1) with (c_cursor s) in E. rewrite Hc0 in E. rewrite E.
+    destruct b.
+    + specialize (Hbt eq_refl). exists 0, s2.
+      assert (HM2 : M s2 <= M s1 - 2).
+      { unfold M, lsize in *. rewrite Hl2. cbn [s1 set_line c_line c_cursor c_ps] in *. lia. }
+      splits; auto; try lia. right. right. lia.
+    + rewrite (Hbf eq_refl) in *.
+      destruct (IH s1 HW1 Hc0 Hfuel1) as (r' & s' & E' & HW' & Hc' & HM' & Hg').
+      rewrite E'. exists r', s'. unfold gprog in *. splits; auto; try lia; try congruence.
+Qed.
+
+Lemma gnc_any fuel s :
+  WFa s -> total_len (c_ps s) < Z.of_nat fuel ->
+  exists r s', get_new_chunk fuel s = Some (r, s') /\ WFa s' /\ c_cap s' = c_cap s /\ M s' <= M s /\ gprog s s' r.
+Proof.
+  intros HW Hfuel. pose proof HW as (Hcur & Hls & Hcap & Hrem). unfold get_new_chunk.
+  destruct (Z.ltb_spec (c_cursor s) (lsize s)) as [Hlt|Hge].
+  - destruct (pnc_any s HW) as (b & s2 & E & HW2 & Hl2 & Hc2 & Ht2 & Hbf & Hbt). rewrite E.
+    destruct b.
+    + specialize (Hbt eq_refl). exists 0, s2.
+      assert (HM2 : M s2 <= M s - 2) by (unfold M, lsize in *; rewrite Hl2; lia).
+      splits; auto; try lia. right. right. exact HM2.
+    + rewrite (Hbf eq_refl) in *. destruct (WFa_compact s HW) as (HWc & HMc & Hcc & Hc0).
+      destruct (gnc_loop_any fuel (compact s) HWc Hc0 ltac:(cbn; exact Hfuel)) as (r' & s' & E' & HW' & Hc' & HM' & Hg').
+      rewrite E'. exists r', s'. unfold gprog in *. splits; auto; try lia; try congruence.
+  - assert (Heq : c_cursor s = lsize s) by lia. rewrite Heq, Z.eqb_refl.
+    set (s0 := set_line s [] 0).
+    assert (HW0 : WFa s0) by (unfold WFa, s0, lsize; cbn; unfold LINE_BUFFER_SIZE in *; lia).
+    assert (HM0 : M s0 = M s) by (unfold M, s0, lsize in *; cbn; lia).
+    destruct (gnc_loop_any fuel s0 HW0 eq_refl ltac:(cbn; exact Hfuel)) as (r' & s' & E' & HW' & Hc' & HM' & Hg').
+    rewrite E'. exists r', s'. unfold gprog in *. splits; auto; try lia; try congruence.
+Qed.
+
+Lemma M_nonneg s : WFa s -> 0 <= M s.
+Proof. intros (H & _). unfold M. pose proof (total_len_nonneg (c_ps s)). lia. Qed.
+
+Lemma loop_any : forall fuel s count ret out,
+  WFa s -> 0 <= count -> M s + 1 < Z.of_nat fuel ->
+  exists r o s', crs_read_loop fuel s count ret out = Some (r, o, s') /\ WFa s' /\ c_cap s' = c_cap s /\ M s' <= M s.
+Proof.
+  induction fuel as [|f IH]; intros s count ret out HW Hc Hfuel.
+  { pose proof (M_nonneg s HW). lia. }
+  pose proof HW as (Hcur & Hls & Hcap & Hrem). cbn [crs_read_loop].
+  destruct ((0 <? count) && negb (c_finish s)) eqn:Hcond.
+  2:{ do 3 eexists. split; [reflexivity|]. splits; auto; lia. }
+  apply andb_prop in Hcond. destruct Hcond as [Hc0 Hnf]. apply Z.ltb_lt in Hc0.
+  pose proof (total_len_nonneg (c_ps s)) as Htl.
+  destruct (rflb_any (S f) s count 0 [] HW Hc ltac:(unfold M in Hfuel; lia))
+    as (r1 & s1 & c1 & o1 & E1 & HW1 & Hcap1 & Hc1 & HM1).
+  rewrite E1.
+  assert (Hfuel1 : total_len (c_ps s1) < Z.of_nat (S f)).
+  { destruct HW1 as (Hcur1 & _). unfold M in *. lia. }
+  destruct ((0 <? c_remain s1) && (0 <? c1)) eqn:Hcond2.
+  - destruct (read_from_stream s1 c1) as [[[r2 s2] c2] bs] eqn:E2.
+    destruct (rfs_any _ _ _ _ _ _ E2 HW1 ltac:(lia)) as (HW2 & Hcap2 & Hfin2 & Hcase).
+    destruct (Z.ltb_spec r2 0) as [Hneg|Hpos].
+    + destruct (Z.ltb_spec r2 0); [|lia]. do 3 eexists. split; [reflexivity|]. splits; auto; lia.
+    + destruct Hcase as [[? ?]|(Hr2 & Hc2 & HM2)]; [lia|].
+      destruct (Z.ltb_spec 0 0); [lia|].
+      destruct ((0 <? c_remain s2) && (r2 =? 0)) eqn:Hstop.
+      * do 3 eexists. split; [reflexivity|]. splits; auto; lia.
+      * destruct (Z.eqb_spec (c_remain s2) 0) as [Hz|Hnz].
+        -- assert (Hfuel2 : total_len (c_ps s2) < Z.of_nat (S f)).
+           { destruct HW2 as (Hcur2 & _). unfold M in *. lia. }
+           destruct (gnc_any (S f) s2 HW2 Hfuel2) as (r3 & s3 & E3 & HW3 & Hcap3 & HM3 & Hg3). rewrite E3.
+           destruct (Z.ltb_spec r3 0). { do 3 eexists. split; [reflexivity|]. splits; auto; lia. }
+           destruct Hg3 as [?|[Hf3|HM3']]; [lia| |].
+           ++ assert (Hl : forall fu c r0 o0, crs_read_loop fu s3 c r0 o0 = Some (r0, o0, s3)).
+              { intros. destruct fu; cbn [crs_read_loop]; rewrite Hf3, andb_false_r; reflexivity. }
+              rewrite Hl. do 3 eexists. split; [reflexivity|]. splits; auto; lia.
+           ++ destruct (IH s3 c2 (ret + r1 + r2) ((out ++ o1) ++ bs) HW3 ltac:(lia) ltac:(lia)) as (r' & o' & s' & E' & HW' & Hc' & HM').
+              rewrite E'. do 3 eexists. split; [reflexivity|]. splits; auto; lia.
+        -- (* remain > 0 and not stopped: r2 > 0 *)
+           assert (Hr2pos : 0 < r2).
+           { apply andb_false_iff in Hstop. destruct Hstop as [Hs|Hs].
+             - apply Z.ltb_ge in Hs. destruct HW2 as (_ & _ & _ & ?). lia.
+             - apply Z.eqb_neq in Hs. lia. }
+           destruct (IH s2 c2 (ret + r1 + r2) ((out ++ o1) ++ bs) HW2 ltac:(lia) ltac:(lia)) as (r' & o' & s' & E' & HW' & Hc' & HM').
+           rewrite E'. do 3 eexists. split; [reflexivity|]. splits; auto; lia.
+  - destruct (Z.ltb_spec 0 0); [lia|]. cbn [andb].
+    destruct (Z.eqb_spec (c_remain s1) 0) as [Hz|Hnz].
+    + destruct (gnc_any (S f) s1 HW1 Hfuel1) as (r3 & s3 & E3 & HW3 & Hcap3 & HM3 & Hg3). rewrite E3.
+      destruct (Z.ltb_spec r3 0). { do 3 eexists. split; [reflexivity|]. splits; auto; lia. }
+      destruct Hg3 as [?|[Hf3|HM3']]; [lia| |].
+      * assert (Hl : forall fu c r0 o0, crs_read_loop fu s3 c r0 o0 = Some (r0, o0, s3)).
+        { intros. destruct fu; cbn [crs_read_loop]; rewrite Hf3, andb_false_r; reflexivity. }
+        rewrite Hl. do 3 eexists. split; [reflexivity|]. splits; auto; lia.
+      * destruct (IH s3 c1 (ret + r1) (out ++ o1) HW3 ltac:(lia) ltac:(lia)) as (r' & o' & s' & E' & HW' & Hc' & HM').
+        rewrite E'. do 3 eexists. split; [reflexivity|]. splits; auto; lia.
+    + (* remain > 0, so count is exhausted: c1 = 0 and at least one byte was delivered *)
+      assert (Hc1z : c1 = 0).
+      { apply andb_false_iff in Hcond2. destruct Hcond2 as [Hs|Hs].
+        - apply Z.ltb_ge in Hs. destruct HW1 as (_ & _ & _ & ?). lia.
+        - apply Z.ltb_ge in Hs. lia. }
+      destruct (IH s1 c1 (ret + r1) (out ++ o1) HW1 ltac:(lia) ltac:(lia)) as (r' & o' & s' & E' & HW' & Hc' & HM').
+      rewrite E'. do 3 eexists. split; [reflexivity|]. splits; auto; lia.
+Qed.
+
+(* every read is total and keeps the state well-formed *)
+Lemma crs_read_any s count : WFa s -> 0 <= count ->
+  exists r o s', crs_read s count = Some (r, o, s') /\ WFa s'.
+Proof.
+  intros HW Hc. unfold crs_read, crs_read_f.
+  assert (Hfuel : M s + 1 < Z.of_nat (crs_fuel s)).
+  { destruct HW as (Hcur & _). unfold crs_fuel, M, lsize, total_len, zlen in *. lia. }
+  destruct (loop_any (crs_fuel s) s count 0 [] HW Hc Hfuel) as (r & o & s' & E & HW' & _).
+  exists r, o, s'. split; assumption.
+Qed.
+
+(* chunked_malformed_safe: for EVERY partial body (<= 4096 bytes), byte stream, fragmentation,
+   error flag and non-negative read sizes the run never returns None: no out-of-range access
+   (in particular recv never stores beyond the line buffer) and the loops finish within
+   crs_fuel = |line buffer| + |stream| + 2 rounds. *)
+Lemma chunked_malformed_safe_proof :
+  forall (cap : Z) (partial : bytes) (ps : pieces) (err : bool) (counts : list Z),
+    LINE_BUFFER_SIZE <= cap -> zlen partial <= LINE_BUFFER_SIZE ->
+    Forall (fun c => 0 <= c) counts ->
+    crs_run (crs_init cap partial ps err) counts <> None.
+Proof.
+  intros cap partial ps err counts Hcap Hp Hall.
+  assert (HW : WFa (crs_init cap partial ps err)).
+  { unfold WFa, lsize. cbn. pose proof (zlen_nonneg partial). lia. }
+  revert HW. generalize (crs_init cap partial ps err). clear - Hall.
+  induction Hall as [|c t Hc Ht IH]; intros s HW; cbn [crs_run]; [discriminate|].
+  destruct (crs_read_any s c HW Hc) as (r & o & s' & E & HW'). rewrite E.
+  specialize (IH s' HW'). destruct (crs_run s' t) as [[l s2]|]; [discriminate|contradiction].
+Qed.
